@@ -339,6 +339,10 @@ def coq_case(adt, fnv, steps):
     return Pair(Pair(variances_sx(adt), variances_sx(fnv)), list(steps))
 
 
+class CyclicTable(Exception):
+    """A variable occurs in its own (deep) value."""
+
+
 class State:
     def __init__(self, sxv):
         # (State vars_len unify_len max_universe max_by_clone [(V root uopt popt) ...])
@@ -367,8 +371,8 @@ class State:
 
     # deep normalisation: bound variables replaced by values, unbound ones by their class representative
     def deep(self, t, depth=0):
-        if depth > 500:
-            raise core.CheckFailure("cyclic inference table")
+        if depth > 400:
+            raise CyclicTable()
         if t[0] == "Node":
             h = hname(t)
             if h in VAR_HEADS:
@@ -425,9 +429,26 @@ def trace_to_coq(trace):
 
 
 def run_scripts(cases, timeout=600):
-    """cases: list of (adt, fnv, steps) -> list of traces (list of StepRes) or None."""
+    """cases: list of (adt, fnv, steps) -> (traces, raw outputs).  A trace is a list of StepRes, or None if the
+    harness could not run the case at all.  If the process died or hung inside a case (raw output `(Abort ..)` /
+    `Timeout`), the longest prefix of the script that still runs is used as its trace (and the raw output keeps
+    the abort), so that the caller can report the step that never returned."""
     outs = core.run_harness("infer", [harness_case(*c) for c in cases], args=["script"], timeout=timeout)
-    return [parse_trace(o) if o and o.startswith("(Trace") else None for o in outs], outs
+    traces = [parse_trace(o) if o and o.startswith("(Trace") else None for o in outs]
+    for i, (c, o) in enumerate(zip(cases, outs)):
+        if traces[i] is None and o and (o.startswith("(Abort") or o.startswith("Timeout")):
+            adt, fnv, steps = c
+            prefixes = [(adt, fnv, steps[:k]) for k in range(len(steps) - 1, 0, -1)]
+            pouts = core.run_harness("infer", [harness_case(*p) for p in prefixes], args=["script"], timeout=max(60, timeout // 5))
+            for po in pouts:
+                if po and po.startswith("(Trace"):
+                    traces[i] = parse_trace(po)
+                    break
+    return traces, outs
+
+
+def died(raw):
+    return bool(raw) and (raw.startswith("(Abort") or raw.startswith("Timeout"))
 
 
 def model_mismatches(ctx, tag, cases, traces, shard=250):
@@ -602,6 +623,13 @@ def kinds_ok(post, terms):
 
 def check_relate_ok(pre, post, variance, a, b, goals):
     """Soundness of one successful real relate, on the implementation's output alone."""
+    try:
+        return _check_relate_ok(pre, post, variance, a, b, goals)
+    except CyclicTable:
+        return "cyclic binding: after the relate an unknown occurs in its own value"
+
+
+def _check_relate_ok(pre, post, variance, a, b, goals):
     d = extends_ok(pre, post)
     if d:
         return "extends: " + d
